@@ -284,7 +284,12 @@ def translate_item_scores(mod, src):
               "fast_mod = model[:, scorable & fast]", "slow = scorable & ~fast", "slow_mat = model.T[slow, :]", "ti_slow_mask[ti_mask] = slow", "slow_mat = torch.from_numpy(slow_mat.toarray())",
               "(slow_trimmed, slow_inds) = torch.topk(slow_mat, self.config.max_nbrs)", "scores = np.full(len(items), np.nan, dtype=np.float32)",
               "model = model[ri_valid_nums, :]", "model = model[:, ti_valid_nums]", "model = model.tocsc()"):
-        once(t, ("slow_trimmed, slow_inds = torch.topk(slow_mat, self.config.max_nbrs)",) if t.startswith("(slow_trimmed") else ())
+        # equivalent spellings (comparisons of integer counts) are the same statement
+        ALT = {"(slow_trimmed, slow_inds) = torch.topk(slow_mat, self.config.max_nbrs)": ("slow_trimmed, slow_inds = torch.topk(slow_mat, self.config.max_nbrs)",),
+               "scorable = sizes >= self.config.min_nbrs": ("scorable = ~(sizes < self.config.min_nbrs)", "scorable = self.config.min_nbrs <= sizes"),
+               "fast = sizes <= self.config.max_nbrs": ("fast = ~(sizes > self.config.max_nbrs)", "fast = self.config.max_nbrs >= sizes"),
+               "slow = scorable & ~fast": ("slow = ~fast & scorable",)}
+        once(t, ALT.get(t, ()))
     ifs = [n for n in ast.walk(fn) if isinstance(n, ast.If) and U(n.test) == "self.config.explicit"]
     bodies = [([U(x) for x in n.body if not isinstance(x, ast.Assert)], [U(x) for x in n.orelse if not isinstance(x, ast.Assert)]) for n in ifs]
     fastb = (["scores[ti_fast_mask] = ri_vals @ fast_mod", "scores[ti_fast_mask] /= fast_mod.sum(axis=0)"], ["scores[ti_fast_mask] = fast_mod.sum(axis=0)"])
